@@ -32,7 +32,7 @@ TypedDateProps == {"created", "modified"}          \* carry xsi:type="dcterms:W3
 RECURSIVE TLen(_)
 TLen(t) == IF t = <<>> THEN 0 ELSE Head(t)[2] + TLen(Tail(t))
 TClasses(t) == {t[i][1] : i \in DOMAIN t}
-ClassName(c) == CASE c = 1 -> "ascii" [] c = 2 -> "markup" [] c = 3 -> "space" [] c = 4 -> "bmp" [] c = 5 -> "astral" [] OTHER -> "opaque"
+ClassName(c) == CASE c = 1 -> "ascii" [] c = 2 -> "markup" [] c = 3 -> "space" [] c = 4 -> "bmp" [] c = 5 -> "astral" [] c = 6 -> "esclike" [] OTHER -> "opaque"
 MixName(t) == IF t = <<>> THEN "empty" ELSE IF Cardinality(TClasses(t)) > 1 THEN "mixed" ELSE ClassName(t[1][1])
 
 \* ------------------------------------------------------------------ dates: civil calendar on <<days, secondOfDay>> (32-bit safe)
